@@ -37,6 +37,15 @@ HALF = 180 * MDEG
 N_MICRO = 2000
 DENSE_TOL = 2.0 / N_MICRO + 1e-4  # 1.1e-3, validated in DESIGN section 4 (C05)
 EXACT_TOL = 1e-9
+# absolute length noise: float64 radians resolve about 5e-9 m on the ground and the geodesic
+# solver about 1e-9 m, so the ratio of two lengths of a leg of L metres is only known to
+# about 1e-8 / L. Negligible (< 1e-11) for the ordinary lattice, 5e-6 for a 1 cm leg.
+LEN_NOISE_M = 5e-8
+
+
+def ratio_tol(L):
+    """Relative tolerance for sums / shares of a segment of geodesic length L metres."""
+    return EXACT_TOL + (LEN_NOISE_M / L if L > 0 else 0.0)
 # C04, antimeridian segment only: the property allows "the small excess caused by measuring
 # straight map-line pieces with great-circle lengths" without fixing the route across the
 # antimeridian; the largest such excess over every ordinary segment of the lattice is 3.97e-4
@@ -259,6 +268,79 @@ def sublattices(tier, seed=0):
         for ns, ni, vp in itertools.product((0, 1, 2), (0, 1, 2, 3), ('p', 'z')):
             cs.append(_case(gid, pts, ns=ns, ni=ni, vals=vp))
     subs.append(dict(name='varcount', axes={'path': len(hp), 'n_state': [0, 1, 2], 'n_integrated': [0, 1, 2, 3], 'values': ['p', 'z']}, cases=cs))
+    subs += tiny_sublattices()
+    return subs
+
+
+# scale axis: legs of centimetres to metres. Coordinates in 1e-7 degree (about 1.1 cm of latitude).
+U7 = 10**7
+# leg lengths in 1e-7 degree of latitude: 1e-7, 1e-6, 1e-5 degree and values just below / above
+# 0.5 m, 1 m, 2 m and 10 m (0.44, 0.56, 0.94, 1.06, 1.11, 1.89, 2.11, 9.4, 10.6 m)
+TINY_LENGTHS = [1, 10, 100, 40, 50, 85, 95, 170, 190, 850, 950]
+TINY_DIRS = {'N': (1, 0), 'E': (0, 1), 'NE': (1, 1), 'SE': (-1, 1)}
+TINY_PLACE = ['mid', 'quarter', 'touch', 'inside']
+
+
+def _tiny_leg(c, d, dname, place, coslat):
+    """Start and end (1e-7 degree) of a leg of about d * 1.11 cm in direction dname, placed
+    relative to the grid corner c: straddling it at 1/2 or 1/4 of its length (a leg along N or E
+    then straddles one grid line, a diagonal one passes through or next to the corner), starting
+    on it, or 33 m inside the cell north-east of it."""
+    s0, s1 = TINY_DIRS[dname]
+    v = (s0 * d, s1 * max(1, round(d / coslat)))
+    if place == 'mid':
+        st = (c[0] - v[0] // 2, c[1] - v[1] // 2)
+    elif place == 'quarter':
+        st = (c[0] - v[0] // 4, c[1] - v[1] // 4)
+    elif place == 'touch':
+        st = c
+    else:
+        st = (c[0] + 3000, c[1] + 3000)
+    return st, (st[0] + v[0], st[1] + v[1])
+
+
+def tiny_sublattices():
+    import math
+
+    subs = []
+    f = U7 // MDEG
+    for gid, (i, j) in (('deg1', (2, 2)), ('half2', (2, 2)), ('irreg', (3, 1))):
+        g = GRIDS[gid]
+        la, lo = g['win_lat'], g['win_lon']
+        c = (la[i] * f, lo[j] * f)
+        coslat = math.cos(math.radians(la[i] / MDEG))
+        pre = ((la[1] + (la[2] - la[1]) // 2) * f, (lo[1] + (lo[2] - lo[1]) // 2) * f)
+        post = ((la[2] + (la[3] - la[2]) // 4) * f, (lo[3] + 3 * (lo[4] - lo[3]) // 4) * f)
+        cs = []
+        for d, dn, pl in itertools.product(TINY_LENGTHS, TINY_DIRS, TINY_PLACE):
+            a, b = _tiny_leg(c, d, dn, pl, coslat)
+            for x, y in ((a, b), (b, a)):
+                cs.append(_case(gid, (x, y), u=U7))
+                cs.append(_case(gid, (pre, x, y, post), u=U7))
+        subs.append(dict(
+            name=f'tiny:{gid}', cases=cs,
+            axes={'length_1e-7deg': TINY_LENGTHS, 'direction': list(TINY_DIRS), 'placement': TINY_PLACE, 'order': 2, 'embedding': ['alone', 'between two ordinary legs']},
+        ))  # fmt: skip
+    # the same legs across the antimeridian (at an interior latitude and on a latitude line)
+    for gid in ('deg1', 'irreg_am'):
+        g = GRIDS[gid]
+        la = g['win_lat']
+        half, full = 180 * U7, 360 * U7
+        cs = []
+        for lat_c in ((la[1] + (la[2] - la[1]) // 2) * f, la[2] * f):
+            coslat = math.cos(math.radians(lat_c / U7))
+            pre = (lat_c + 2500 * f // 10, half - 7500 * f // 10)
+            for d, dn, pl in itertools.product(TINY_LENGTHS, ('E', 'NE', 'SE'), ('mid', 'quarter', 'touch')):
+                a, b = _tiny_leg((lat_c, half), d, dn, pl, coslat)
+                if b[1] > half:
+                    b = (b[0], b[1] - full)
+                for x, y in ((a, b), (b, a)):
+                    cs.append(_case(gid, (x, y), u=U7))
+                cs.append(_case(gid, (pre, a, b), u=U7))
+        subs.append(dict(
+            name=f'tiny-am:{gid}', cases=cs,
+            axes={'length_1e-7deg': TINY_LENGTHS, 'direction': ['E', 'NE', 'SE'], 'placement': ['mid', 'quarter', 'touch'], 'latitude': ['interior', 'on a line'], 'path': 3},
+        ))  # fmt: skip
     return subs
 
 
@@ -267,8 +349,24 @@ def sublattices(tier, seed=0):
 _GRIDDERS = {}
 
 
-def _rad(mdeg_list):
-    return np.deg2rad(np.array([x / 1000.0 for x in mdeg_list], dtype=float))
+def _rad(values, unit=MDEG):
+    """Integer coordinates in 1/unit degree -> radians. int / int is correctly rounded, so a
+    grid edge e mdeg and the same place written as e * 10000 in 1e-7 degree give the same float."""
+    return np.deg2rad(np.array([x / unit for x in values], dtype=float))
+
+
+_SCALED = {}
+
+
+def scaled_grid(gid, unit=MDEG):
+    """The grid with its edges expressed in 1/unit degree (unit is a multiple of 1000)."""
+    key = (gid, unit)
+    if key not in _SCALED:
+        g = GRIDS[gid]
+        f = unit // MDEG
+        assert f * MDEG == unit
+        _SCALED[key] = dict(lat=[e * f for e in g['lat']], lon=[e * f for e in g['lon']], unit=unit, half=180 * unit, full=360 * unit)
+    return _SCALED[key]
 
 
 def gridder(gid, gaxes):
@@ -292,6 +390,7 @@ def case_params(case):
     return dict(
         gid=case['g'], pts=[tuple(p) for p in case['pts']], v=v, gaxes=case.get('gaxes', v),
         alt=case.get('alt'), time=case.get('time'), ns=case.get('ns', 1), ni=case.get('ni', 1), vals=case.get('vals', 'p'),
+        unit=case.get('u', MDEG),
     )  # fmt: skip
 
 
@@ -301,8 +400,8 @@ def run_impl(p, ns=None, ni=None):
     ni = p['ni'] if ni is None else ni
     n = len(p['pts'])
     g = gridder(p['gid'], p['gaxes'])
-    lats = _rad([q[0] for q in p['pts']])
-    lons = _rad([q[1] for q in p['pts']])
+    lats = _rad([q[0] for q in p['pts']], p['unit'])
+    lons = _rad([q[1] for q in p['pts']], p['unit'])
     alts = np.array(p['alt'], dtype=float) if p['v'] in ('alt', 'alt+time') else None
     times = np.array(p['time'], dtype=float) if p['v'] in ('time', 'alt+time') else None
     sv = tuple(np.array(STATE[j][:n], dtype=float) for j in range(ns))
@@ -332,29 +431,30 @@ def label_index(values, grid_mdeg):
 # ----------------------------------------------------------------------------- oracles
 
 
-def is_am(a, b):
-    return abs(b[1] - a[1]) > HALF
+def is_am(a, b, unit=MDEG):
+    return abs(b[1] - a[1]) > 180 * unit
 
 
-def unwrap_end(a, b):
+def unwrap_end(a, b, unit=MDEG):
     """End point with longitude unwrapped so that the straight map line is the short way round."""
     d = b[1] - a[1]
-    if d > HALF:
-        return (b[0], b[1] - FULL)
-    if d < -HALF:
-        return (b[0], b[1] + FULL)
+    if d > 180 * unit:
+        return (b[0], b[1] - 360 * unit)
+    if d < -180 * unit:
+        return (b[0], b[1] + 360 * unit)
     return b
 
 
-def _axis_cells(x, edges, periodic=False):
-    """Admissible cell labels for coordinate x (exact rational, mdeg); () if outside the grid."""
+def _axis_cells(x, edges, half=None):
+    """Admissible cell labels for coordinate x (exact rational, grid units); () if outside the
+    grid. half (= 180 degrees in grid units) marks the periodic longitude axis."""
     n = len(edges)
-    if periodic:
-        while x > HALF:
-            x -= FULL
-        while x < -HALF:
-            x += FULL
-        if abs(x) == HALF and edges[0] == -HALF and edges[-1] == HALF:
+    if half is not None:
+        while x > half:
+            x -= 2 * half
+        while x < -half:
+            x += 2 * half
+        if abs(x) == half and edges[0] == -half and edges[-1] == half:
             return (0, n - 2, n - 1)
     if x < edges[0] or x > edges[-1]:
         return ()
@@ -364,13 +464,13 @@ def _axis_cells(x, edges, periodic=False):
     return (k,)
 
 
-def _crossings(a, d, edges, periodic):
+def _crossings(a, d, edges, half=None):
     """Rational parameters t in (0,1) at which a + t*d equals a grid edge."""
     if d == 0:
         return []
     lo, hi = (a, a + d) if d > 0 else (a + d, a)
-    if periodic and (lo < -HALF or hi > HALF):
-        es = sorted({e + m * FULL for e in edges for m in (-1, 0, 1)})
+    if half is not None and (lo < -half or hi > half):
+        es = sorted({e + m * 2 * half for e in edges for m in (-1, 0, 1)})
     else:
         es = edges
     return [Fraction(e - a, d) for e in es[bisect_right(es, lo) : bisect_left(es, hi)]]
@@ -389,23 +489,23 @@ def exact_segment(a, b, grid):
     first = (lies on the first latitude line, lies on the first longitude line).
     For a zero-length segment there is one piece holding the whole value (raw = 1).
     """
-    glat, glon = grid['lat'], grid['lon']
+    glat, glon, unit, half = grid['lat'], grid['lon'], grid['unit'], grid['half']
     d0, d1 = b[0] - a[0], b[1] - a[1]
     if d0 == 0 and d1 == 0:
-        return dict(zero=True, L=0.0, pieces=[dict(lat=_axis_cells(a[0], glat), lon=_axis_cells(a[1], glon, True), raw=1.0, t0=0.0, t1=0.0, first=(a[0] == glat[0], a[1] == glon[0]))])
-    ts = sorted(set([Fraction(0), Fraction(1)] + _crossings(a[0], d0, glat, False) + _crossings(a[1], d1, glon, True)))
-    lat = [float((a[0] + t * d0) / MDEG) for t in ts]
-    lon = [float((a[1] + t * d1) / MDEG) for t in ts]
+        return dict(zero=True, L=0.0, pieces=[dict(lat=_axis_cells(a[0], glat), lon=_axis_cells(a[1], glon, half), raw=1.0, t0=0.0, t1=0.0, first=(a[0] == glat[0], a[1] == glon[0]))])
+    ts = sorted(set([Fraction(0), Fraction(1)] + _crossings(a[0], d0, glat) + _crossings(a[1], d1, glon, half)))
+    lat = [float((a[0] + t * d0) / unit) for t in ts]
+    lon = [float((a[1] + t * d1) / unit) for t in ts]
     lens = _geo_len(lat, lon)
     L = float(_geo_len([lat[0], lat[-1]], [lon[0], lon[-1]])[0])
     if L == 0.0:  # +180 -> -180 at one latitude: the same point written twice
-        return dict(zero=True, L=0.0, pieces=[dict(lat=_axis_cells(a[0], glat), lon=_axis_cells(a[1], glon, True), raw=1.0, t0=0.0, t1=0.0, first=(a[0] == glat[0], a[1] == glon[0]))])
+        return dict(zero=True, L=0.0, pieces=[dict(lat=_axis_cells(a[0], glat), lon=_axis_cells(a[1], glon, half), raw=1.0, t0=0.0, t1=0.0, first=(a[0] == glat[0], a[1] == glon[0]))])
     pieces = []
     for i in range(len(ts) - 1):
         tm = (ts[i] + ts[i + 1]) / 2
         m0, m1 = a[0] + tm * d0, a[1] + tm * d1
         pieces.append(dict(
-            lat=_axis_cells(m0, glat), lon=_axis_cells(m1, glon, True),
+            lat=_axis_cells(m0, glat), lon=_axis_cells(m1, glon, half),
             raw=float(lens[i]) / L, t0=float(ts[i]), t1=float(ts[i + 1]),
             first=(m0 == glat[0], m1 == glon[0]),  # the piece runs along the first grid line
         ))  # fmt: skip
@@ -417,8 +517,9 @@ def kinked_reference(a, b, grid):
     antimeridian, second leg from there to the end point; value split by the two leg lengths.
     Returns normalised pieces [(lat labels, lon labels, share)]."""
     east = b[1] - a[1] < 0  # eastward crossing: longitudes jump from + to -
-    x1 = (a[0], HALF if east else -HALF)
-    x2 = (a[0], -HALF if east else HALF)
+    half = grid['half']
+    x1 = (a[0], half if east else -half)
+    x2 = (a[0], -half if east else half)
     s1, s2 = exact_segment(a, x1, grid), exact_segment(x2, b, grid)
     L1, L2 = s1['L'], s2['L']
     if L1 + L2 == 0:
@@ -444,9 +545,10 @@ def _count_bin(x, edges):
 def dense_segment(a, b, grid, n=N_MICRO):
     """Brute-force binning: n micro-intervals of the straight map line, geodesic-length weights,
     midpoint binned by counting edges <= coordinate. Returns (ordered {cell: share}, L_curve)."""
-    glat = np.array([e / 1000.0 for e in grid['lat']])
-    glon = np.array([e / 1000.0 for e in grid['lon']])
-    a0, a1, b0, b1 = a[0] / 1000.0, a[1] / 1000.0, b[0] / 1000.0, b[1] / 1000.0
+    u = grid['unit']
+    glat = np.array([e / u for e in grid['lat']])
+    glon = np.array([e / u for e in grid['lon']])
+    a0, a1, b0, b1 = a[0] / u, a[1] / u, b[0] / u, b[1] / u
     t = np.arange(n + 1) / n
     w = _geo_len(a0 + t * (b0 - a0), a1 + t * (b1 - a1))
     tot = float(w.sum())
@@ -533,7 +635,8 @@ def calibrate(tier='thorough'):
         for c in s['cases']:
             pts = [tuple(q) for q in c['pts']]
             for a, b in zip(pts[:-1], pts[1:]):
-                r = exact_segment(a, unwrap_end(a, b), GRIDS[c['g']])
+                u = c.get('u', MDEG)
+                r = exact_segment(a, unwrap_end(a, b, u), scaled_grid(c['g'], u))
                 if not r['zero']:
                     worst = max(worst, sum(x['raw'] for x in r['pieces']) - 1.0)
     return worst
@@ -581,12 +684,12 @@ def evaluate(case, force_vals=None):
                     for j in range(p['ni']):
                         if not np.array_equal(t2['iv'][j], tab['iv'][j], equal_nan=True):
                             variant.append(('variable-count-changes-values', f'integrated variable {j} differs when variable counts change'))
-    g = GRIDS[p['gid']]
+    g = scaled_grid(p['gid'], p['unit'])
     segs = []
     for a, b in zip(p['pts'][:-1], p['pts'][1:]):
-        bu = unwrap_end(a, b)
-        segs.append(dict(a=a, b=bu, am=is_am(a, b), exact=exact_segment(a, bu, g)))
-    return dict(p=p, tab=tab, segs=segs, variant=variant, mutated=res['inputs_mutated'])
+        bu = unwrap_end(a, b, p['unit'])
+        segs.append(dict(a=a, b=bu, am=is_am(a, b, p['unit']), exact=exact_segment(a, bu, g)))
+    return dict(p=p, tab=tab, segs=segs, grid=g, variant=variant, mutated=res['inputs_mutated'])
 
 
 def outcome_class(ev):
